@@ -100,9 +100,14 @@ def q_learning_update(
     gamma: float,
     learning_rate: float,
     q_table: jnp.ndarray,
+    terminated: bool = False,
 ) -> jnp.ndarray:
     next_act = greedy_policy(q_table, next_obs)
-    q_target = reward + gamma * q_table[next_obs, next_act] - q_table[obs, act]
+    q_target = (
+        reward
+        + gamma * (1 - terminated) * q_table[next_obs, next_act]
+        - q_table[obs, act]
+    )
     return q_table.at[obs, act].set(
         q_table[obs, act] + learning_rate * q_target
     )
@@ -216,7 +221,7 @@ def train_dynaq(
 
         # direct RL
         q_table = q_learning_update(
-            obs, act, reward, next_obs, gamma, learning_rate, q_table
+            obs, act, reward, next_obs, gamma, learning_rate, q_table, terminated
         )
 
         counter = counter_update(counter, obs, act, reward, next_obs)
